@@ -503,6 +503,10 @@ def rules(rep, facts):
     r9_header_span_kept(rep, facts)
     from .rules_events import r_spans
     r_spans(rep, facts)
+    if facts.config == 'default':
+        # making a document editable drops every span in every build: the same question in the build that has the parser but not the printer
+        from .core import Facts as _Facts
+        r_spans(rep, _Facts('edit_parse'), label='edit_parse|', editable_only=True)
     r10_array_span(rep, facts)
     r11_table_span_grows(rep, facts)
     if 'serde' in feats and 'serde_spanned' in facts.crates:
